@@ -3,7 +3,7 @@
     frozen one: renamed locals, reordered lets, extracted helpers); otherwise a
     structure-following tactic: same-scrutinee case analysis, congruence under binds, loops
     and catch, and [lia]-proved rewrites between boolean comparisons. *)
-From Coq Require Import ZArith List Bool Lia ZifyBool.
+From Coq Require Import ZArith List Bool Lia ZifyBool Btauto.
 From HV Require Import Prelude.Py Prelude.State.
 Import ListNotations.
 Open Scope Z_scope.
@@ -85,13 +85,113 @@ Ltac bstep :=
   | |- _ = _ => solve [ lia | (f_equal; lia) | (repeat f_equal; lia) | reflexivity ]
   end.
 
+Ltac head_of t := match t with ?f _ => head_of f | _ => t end.
+
+(** * Equalities up to arithmetic *)
+Lemma len_nonneg_ {A} (l : list A) : 0 <= len l.
+Proof. unfold len. lia. Qed.
+
+(** [0 <= len l] for the lengths in sight (an emptiness test may be spelled [len l >? 0]) *)
+Ltac len_facts :=
+  repeat match goal with
+  | |- context [len ?l] =>
+      lazymatch goal with _ : 0 <= len l |- _ => fail | _ => pose proof (len_nonneg_ l) end
+  | _ : context [len ?l] |- _ =>
+      lazymatch goal with _ : 0 <= len l |- _ => fail | _ => pose proof (len_nonneg_ l) end
+  end.
+
+Ltac zleaf := len_facts; solve [ lia | btauto | (norm_cmp; lia) | apply Z.land_comm | apply Z.lor_comm | apply Z.lxor_comm ].
+
+(** [a = b] when a and b have the same shape down to integer / boolean sub-terms that are equal by
+    arithmetic: congruence first (so that an integer inside an uninterpreted term is found), [lia] or
+    [btauto] at the outermost position where the shapes differ. *)
+Ltac zcong :=
+  lazymatch goal with
+  | |- ?a = ?a => reflexivity
+  | |- @eq ?T _ _ =>
+      first [ solve [ progress f_equal; zcong ]
+            | lazymatch T with Z => zleaf | bool => zleaf | nat => zleaf end ]
+  end.
+
+Ltac same_head a b := let ha := head_of a in let hb := head_of b in constr_eq ha hb.
+Ltac differ a b := tryif constr_eq a b then fail else idtac.
+Ltac no_match x := lazymatch x with context [match _ with _ => _ end] => fail | _ => idtac end.
+
+(** x is about to be analysed: something equal to it up to arithmetic was analysed before *)
+Ltac sync_hyp x :=
+  match goal with
+  | H : ?y = _ |- _ =>
+      differ x y; same_head x y;
+      let E := fresh in assert (E : x = y) by zcong; rewrite E; clear E; rewrite H
+  end.
+(** ... or is another scrutinee of the goal, which is rewritten into x *)
+Ltac sync_goal x :=
+  repeat match goal with
+  | |- context [match ?y with _ => _ end] =>
+      differ x y; same_head x y; no_match y;
+      let E := fresh in assert (E : y = x) by zcong; rewrite E; clear E
+  end.
+
+(** destruct a scrutinee of the goal that contains no other match -- or, when its value is already
+    known from an earlier case analysis (the two sides do not always show a scrutinee at the same
+    moment), rewrite with what is known.  Scrutinees that differ only by the spelling of an integer
+    or boolean sub-term ([a + b] / [b + a]) are identified first. *)
+Ltac break_match :=
+  match goal with
+  | |- context [match ?x with _ => _ end] =>
+      no_match x;
+      first [ match goal with H : x = _ |- _ => rewrite H end
+            | sync_hyp x
+            | sync_goal x; destruct x eqn:? ]
+  end.
+
+Ltac units := repeat match goal with u : unit |- _ => destruct u end.
+
+(** equations between constructor forms, left behind by the case analyses *)
+Ltac tidy :=
+  repeat match goal with
+  | H : Ok _ = Ok _ |- _ => inversion H; clear H; try subst
+  | H : Err _ = Err _ |- _ => inversion H; clear H; try subst
+  | H : Some _ = Some _ |- _ => inversion H; clear H; try subst
+  | H : pair _ _ = pair _ _ |- _ => inversion H; clear H; try subst
+  | H : Ok _ = Err _ |- _ => discriminate H
+  | H : Err _ = Ok _ |- _ => discriminate H
+  | H : Some _ = None |- _ => discriminate H
+  | H : None = Some _ |- _ => discriminate H
+  end.
+
+(** * The fallback of the cascade: case analysis instead of congruence.
+    When the two sides do not have the same shape -- a helper was extracted (the regenerated text binds it
+    by a local [let h := fun ... in], so that unfolding it is zeta/beta), a [bind] on one side is an explicit
+    [match] on the other -- the combinators and the local definitions are unfolded (beta/iota/zeta, delta on
+    the combinators only) and an innermost scrutinee is destructed, one at a time, as in Bridge/B_dec_lib.v;
+    loops with the same fuel and initial state are compared body against body.  [callees] rewrites with the
+    bridges of the definitions that the two sides call (they need not be convertible). *)
+Ltac lexpose := cbv beta iota zeta delta [bind mbind sbind catch fst snd].
+Ltac lfinish :=
+  units; tidy;
+  solve [ reflexivity | congruence | (exfalso; len_facts; lia) | (exfalso; congruence) | zcong ].
+Ltac loop_ext tac :=
+  match goal with
+  | |- context [while_fuel ?n ?f ?s] =>
+      match goal with |- context [while_fuel n ?g s] =>
+        differ f g; rewrite (while_fuel_ext f g) by (intros; destruct_pairs; tac) end
+  | |- context [for_each ?xs ?f ?s] =>
+      match goal with |- context [for_each xs ?g s] =>
+        differ f g; rewrite (for_each_ext f g) by (intros; destruct_pairs; tac) end
+  end.
+Ltac lcrush callees := repeat (lexpose; callees; first [ lfinish | loop_ext ltac:(lcrush callees) | break_match ]).
+
 (* small integer constants of the source and of the model are unfolded to their values, so that
    [lia] can compare tests written against them (redefined in Bridge/BridgeConsts.v) *)
 Ltac norm_consts := idtac.
-Ltac head_of t := match t with ?f _ => head_of f | _ => t end.
 Ltac unfold_heads :=
   match goal with
   | |- ?l = ?r => let hl := head_of l in let hr := head_of r in cbv delta [hl hr]
   end.
 Ltac bridge_auto := intros; unfold_heads; norm_consts; repeat (cbv beta iota; bstep).
-Ltac bridge := first [ reflexivity | (intros; reflexivity) | bridge_auto ].
+Ltac bridge_crush callees := intros; unfold_heads; norm_consts; lcrush callees.
+(** [bridge_with callees]: the cascade for a definition that calls other bridged definitions *)
+Ltac bridge_with callees :=
+  first [ reflexivity | (intros; reflexivity) | solve [ bridge_auto ] | solve [ bridge_crush callees ] ].
+Ltac bridge := bridge_with idtac.
